@@ -10,25 +10,25 @@ TECH = {"C01": "term identity over column algebra + argument wiring", "C02": "ti
         "C15": "typestate over interpreted event traces of fit()", "C16": "alias/ownership of in-place targets + single-writer + purity by reachability", "C17": "inductive invariant over to/simulate/register_buffer + dtype provenance",
         "C18": "extended-real abstract evaluation at boundary cases", "C19": "loop-invariant case analysis + termination + wiring", "C20": "enumeration of orderings + option-use rule + term identities"}
 NOTE = {
- "C01": "Decided for all shapes/flags over the reals: the pl() term equals the wealth identity (8 flag cases), axis bookkeeping, alias terminal_value, hedger wiring on every path, cost rates not rounded to the default dtype. Not decided: floating-point rounding beyond the provenance of the cost rates.",
- "C02": "Decided: which time columns every built-in feature / container / the model input may read (both modes), loop range 0..T-2 and last column = copy of T-2 on every path, built-in models read their input only. Assumed: user models act on the last axis, a listed derivative's pricer is adapted.",
- "C03": "Decided: step branch == column of batch branch for every feature (terms), both hedger branches hold the position of step T-2 in the last column, prev_hedge chain (hook, buffer name, reset shape/order, call through self(...)), shapes (N,H,T). Not decided: rounding differences between the branches; user features.",
+ "C01": "Decided for all shapes/flags over the reals: the pl() term equals the wealth identity (8 flag cases), axis bookkeeping, alias terminal_value, hedger wiring on every path, cost rates not rounded to the default dtype, list()/delist() histories. Not decided: floating-point rounding beyond the provenance of the cost rates.",
+ "C02": "Decided: which time columns every built-in feature / container / the model input may read (both modes), loop range 0..T-2 and last column = copy of T-2 on every path, built-in models read their input only, the option mixin methods themselves. Assumed: user models act on the last axis, a listed derivative's pricer is adapted.",
+ "C03": "Decided: step branch == column of batch branch for every feature (terms), both hedger branches hold the position of step T-2 in the last column, prev_hedge chain (hook, buffer name, reset shape/order, call through self(...)), shapes (N,H,T), both branches compute in the dtype of the data, nothing survives a re-simulation. Not decided: rounding differences beyond dtype provenance; user features.",
  "C04": "Decided by composition rules: convex / non-increasing / cash-invariant (and positively homogeneous, non-increasing in p for ES), constructor ranges, entropic risk non-decreasing in a (cumulant generating function). The quadratic CVaR certificate is conditional on C05.R6 (known finding KF2). Not decided: rounding.",
- "C05": "Decided: each functional/module equals the formula of the statement as a term (utilities, ERM through logsumexp, ES count ceil(pN), VaR guards and quantile level, QCVaR stationarity), sample count is size(dim) not numel, reductions along the requested axis for dim=0/1/None. Known finding KF2 (bracket). Not decided: borderline p*N, rounding.",
+ "C05": "Decided: each functional/module equals the formula of the statement as a term (utilities, ERM through logsumexp, ES count ceil(pN), VaR guards and quantile level, QCVaR stationarity), sample count is size(dim) not numel, reductions along the requested axis for dim=0/1/None on every branch, scalar targets/levels not rounded to the default dtype, constructors. Known finding KF2 (bracket). Not decided: borderline p*N, rounding.",
  "C06": "Decided: closed-form cash overrides are certainty equivalents of their forward and subtract the target first; the default search per column (level, bracket ends by value/axis/shape, constant-sample evaluations) and its dependence on bisect; Hedger.price event order, sign, target, grad mode on every path; shift equivariance; price == loss for ERM. Known finding KF4 (constant sample). Assumed: user criteria relying on the default search are monotone.",
  "C07": "Decided over the reals: Black-Scholes PDE residual 0, terminal and barrier/regime conditions (incl. running maximum == strike), units, ncdf/npdf, module wiring and registry keys, strike not rounded to the default dtype. Lemma: Feynman-Kac uniqueness. Not decided: float32 accuracy.",
  "C08": "Decided: every closed-form Greek equals the symbolic derivative of the repo's own price term (calls and puts), units of 20 functions, which Greek each module method computes, autogreek leaf/recompute dataflow, lookback Greeks wiring. Trusted: torch.autograd.",
  "C09": "Decided: put-call parity, binary complement, barrier constant incl. max == strike, lookback continuity, signs of the European Greeks, and the ordering clauses by sign certificates (call between intrinsic and spot, one-touch between European binary and 1, lookback above European call and locked-in payoff, monotone in the running maximum). Relies on C08 for 'Greek = derivative'.",
  "C10": "Decided: units of all generators, exact solutions with caller-supplied normals, one-step conditional moments (Vasicek, CIR both branches, local vol, GBM/Merton/Kou compensators and mark laws), Heston K0..K4, rough-Bergomi covariance/increment/compensator, termination, fresh innovations, Sobol/Box-Muller plumbing. Known findings KF1 (rough-Bergomi kernel), KF5 (Sobol layout along time). Not decided: laws of torch samplers, multi-step laws beyond induction.",
  "C11": "Decided: shapes (paths, steps), column 0 = initial state (rough-Bergomi variance: proportional to it), dtype provenance of every output, positivity of exponential-type prices, volatility = sqrt(clamp(variance)), buffer registration, no uninitialised column, QE variance stays >= 0 (inductive). Not decided: finiteness at extreme parameters, half precision.",
- "C12": "Decided: each payoff functional equals its contractual definition as a term (comparators, direction of extremes, columns), class wiring, clause fold in registration order with no filtering, shapes, rounding guard of the forward-start index.",
- "C13": "Decided: all 8 simulate() pass ceil(round(h/dt, d) + 1) steps, dt, init state; BaseDerivative.simulate passes maturity to every underlier on every path; time_to_maturity == (T-1-i) dt in both branches and for negative steps with T read from the grid; rounding guards (6 <= d <= 12).",
+ "C12": "Decided: each payoff functional equals its contractual definition as a term (comparators, direction of extremes, columns), class wiring, clause fold in registration order with no filtering, every call history of at most 2 (thorough 3) registry operations on every class against a reference model, shapes, rounding guard of the forward-start index.",
+ "C13": "Decided: registry and re-simulation histories, initial-state forwarding, time-dependent coefficients at i*dt; all 8 simulate() pass ceil(round(h/dt, d) + 1) steps, dt, init state; BaseDerivative.simulate passes maturity to every underlier on every path; time_to_maturity == (T-1-i) dt in both branches and for negative steps with T read from the grid; rounding guards (6 <= d <= 12).",
  "C14": "Decided (necessary structural conditions): no graph-breaking construct on the slice model output -> loss for 6 criteria x 2 branches, hook stores the output itself, in-place stores only on fresh tensors, defaults of enable_grad, simulate..criterion inside the caller's grad-mode region, building-block functionals do not break the graph. Trusted: torch.autograd per operator. Not decided: agreement with finite differences.",
  "C15": "Decided: event order per epoch on every path (train, zero_grad, loss on the training configuration, backward, step; validation under eval with n_times and no grad), optimiser construction on model.parameters() after lazy initialisation, n_times evaluations each with its own simulate, no other writer of parameters reachable.",
- "C16": "Decided: every in-place site targets fresh storage (alias domain; the model is handed fresh storage), single writer of instrument buffers, purity of ~60 entry points by interpretation, features bound through .of before use, no state kept on instruments/features across calls. Assumed: user callables do not mutate their arguments.",
- "C17": "Decided: inductive invariant over constructor / to (4 paths) / simulate / register_buffer, alias methods, derivative accessors, dtype provenance of 88 result terms. Not decided: real accelerators, half-precision arithmetic.",
+ "C16": "Decided: every in-place site targets fresh storage (alias domain; the model is handed fresh storage), single writer of instrument buffers, purity of ~60 entry points by interpretation, features bound through .of before use, no state kept on instruments/features across calls, every call history of at most 2 (thorough 4) registry operations against a reference model, buffer-registry / re-simulation / re-configuration histories. Assumed: user callables do not mutate their arguments.",
+ "C17": "Decided: inductive invariant over constructor / to (4 paths) / simulate / register_buffer, alias methods, derivative accessors, dtype provenance of 88 result terms, buffer-registry histories of every primary class. Not decided: real accelerators, half-precision arithmetic.",
  "C18": "Decided: extended-real evaluation of 9 price/delta functions at t=0 / v=0 x moneyness x running maximum (226 cases): no NaN and the certain payoff; guards reached; interior NaN-freedom incl. the Whalley-Wilmott width for negative gamma. Not decided: lookback Greeks (autograd), overflow.",
- "C19": "Decided: bisection loop invariant (midpoint, complementary updates, no extra exit except an exact hit), orientation handling and termination, bounded loop, implied-volatility wiring incl. live orientation decision, vega > 0 for European prices. Not decided: monotonicity of non-European prices in volatility, per-element mixed orientation.",
+ "C19": "Decided: bisection loop invariant (midpoint, complementary updates, no extra exit except an exact hit), orientation handling and termination, bounded loop, implied-volatility wiring incl. live orientation decision, vega > 0 for European prices, derivative-bound modules invert their own price(), the inverted function is computed in the dtype of its inputs. Not decided: monotonicity of non-European prices in volatility, per-element mixed orientation.",
  "C20": "Decided: clamps by enumeration of orderings (both modes, defaults), options stored/documented vs used, Whalley-Wilmott band and width (term + units), SVI, bilerp, Box-Muller, realized volatility, float bounds not rounded to the default dtype.",
 }
 checks = []
